@@ -559,6 +559,19 @@ package table
 //@   at-return requires old(info.RouteServerClient) ==> ret0 == original
 //@   at-return requires !old(info.RouteServerClient) ==> ret0 != nil && fresh(ret0)
 
+// the same for AGGREGATOR: once its AS is held as a 4-octet number the attribute is 8 octets long
+//@ props C11
+//@ spec wfAgg(a bgp.PathAttributeInterface) bool = typeOf(a) == (*bgp.PathAttributeAggregator) && a.(*bgp.PathAttributeAggregator) != nil && a.(*bgp.PathAttributeAggregator).Value.Askind == reflect.Uint32 ==> a.(*bgp.PathAttributeAggregator).Length == 8
+//@ func UpdatePathAggregator4ByteAs
+//@   address-quant
+//@   assume-checks
+//@   requires msg != nil
+//@   requires forall k int :: 0 <= k && k < len(msg.PathAttributes) ==> wfAgg(msg.PathAttributes[k])
+//@   claims inv-init inv-keep at-return
+//@   loop 0 invariant forall k int :: 0 <= k && k < len(msg.PathAttributes) ==> wfAgg(msg.PathAttributes[k])
+//@   loop 0 invariant aggAttr != nil ==> aggAttr.Value.Askind == reflect.Uint32 && aggAttr.Length == 8
+//@   at-return requires aggAttr != nil ==> aggAttr.Value.Askind == reflect.Uint32 && aggAttr.Length == 8
+
 // =============================================================================================
 // C14 — the 2-octet/4-octet AS transition: reconstruction from AS_PATH + AS4_PATH
 // =============================================================================================
@@ -577,6 +590,10 @@ package table
 //@ func UpdatePathAttrs4ByteAs
 //@   math-int
 //@   claims inv-init inv-keep step at-call
+// from C11 (the packers budget from Len(), the stored Length): an AS_PATH whose segments were widened to 4-octet
+// members is rebuilt by the constructor, which recomputes Length and the extended-length flag (called() is per
+// iteration of loop 0)
+//@   loop 0 step typeOf(attr) == (*bgp.PathAttributeAsPath) ==> called(bgp.NewPathAttributeAsPath)
 //@   loop 3 invariant asLen >= 0
 //@   loop 4 invariant as4Len >= 0
 //@   loop 5 invariant keepNum >= 0 && keepNum + as4Len <= asLen
